@@ -627,7 +627,8 @@ func (x *Exec) builtin(fr *Frame, st *State, site ssa.Instruction, c *ssa.CallCo
 		x.oblige("panic", x.safetyName("panic", fr, site, "panic"), st.Guard, tFalse, "explicit panic reachable", site.Pos(), true)
 		return Val{Typ: rt}
 	case "clear":
-		panic(toolErr("clear() not modelled"))
+		x.builtinClear(fr, st, c)
+		return Val{Typ: rt}
 	}
 	panic(toolErr("unsupported builtin " + b.Name()))
 }
